@@ -1103,7 +1103,19 @@ def m2_particles(ctx: Any, prog: Program) -> None:
     sections_r = sorted(sections_r, key=lambda v_: next(c.lineno * 1000 + c.col_offset for c in ast.walk(par) if isinstance(c, ast.Call) and dotted(c.func) == 'generic_attr' and len(c.args) == 2 and isinstance(c.args[1], ast.Constant) and c.args[1].value == v_))
     lst = [n for n in ast.walk(exp) if isinstance(n, ast.List) and all(isinstance(e, ast.Constant) and isinstance(e.value, str) for e in n.elts) and len(n.elts) >= 4]
     sections_w = [e.value for e in lst[0].elts] if lst else []
-    ctx.check('C20.M2', sections_r == sections_w and len(sections_r) == 6, mod, exp, f'operator sections: parse reads {sections_r}, export writes {sections_w}', func='Particle.export', text='particle sections')
+    if not lst:
+        # the list may live in a module constant that export() iterates: `for name in _OPERATOR_LISTS: getattr(part, name)`
+        pfold = Folder(prog, mod)
+        for l_ in ast.walk(exp):
+            if isinstance(l_, ast.For) and isinstance(l_.iter, ast.Name) and isinstance(l_.target, ast.Name) and any(isinstance(c, ast.Call) and dotted(c.func) == 'getattr' and len(c.args) == 2 and dotted(c.args[1]) == l_.target.id for c in ast.walk(l_)):
+                try:
+                    v_ = pfold.global_(l_.iter.id)
+                except (FoldError, AnalysisError):
+                    v_ = None
+                if isinstance(v_, (list, tuple)) and all(isinstance(x, str) for x in v_):
+                    sections_w = list(v_)
+    ctx.shape('C20.M2', bool(sections_w), mod, exp, 'the operator sections export() walks are a literal list (in place or in a module constant)', func='Particle.export', text='particle sections found')
+    ctx.check('C20.M2', (sections_r == sections_w and len(sections_r) == 6) or not sections_w, mod, exp, f'operator sections: parse reads {sections_r}, export writes {sections_w}', func='Particle.export', text='particle sections')
     def _keys_used(fn: ast.AST, store: bool) -> Set[str]:
         out: Set[str] = set()
         for n in ast.walk(fn):
